@@ -313,14 +313,27 @@ def py_repr_float(fr: fractions.Fraction) -> str:
         return 'inf'
 
 
+FLOAT_RULE = ['limit']      # 'limit' | 'exact': the regenerated fact float_rule, asked from the extracted model at the start of a run
+
+
+def py_is_exact_double(x: int) -> bool:
+    try:
+        return int(float(x)) == x
+    except OverflowError:
+        return False
+
+
 def float_model_ok(t: typing.List[str], fr: fractions.Fraction, fe: typing.Optional[dict] = None) -> bool:
     """t = tokens of the model's answer `ok <expr> <num>/<den> div=<0|1>`: the division / integral form must denote the rational
     exactly; the oracle's decimal constant must read back as the correctly rounded double and be rendered verbatim"""
     if len(t) != 4 or t[0] != 'ok' or '/' not in t[2]:
         return False
     got = parse_fraction(t[2])
-    limit = 2 ** 1023
-    div = abs(fr.numerator) < limit and fr.denominator < limit
+    if FLOAT_RULE[0] == 'exact':
+        div = py_is_exact_double(fr.numerator) and py_is_exact_double(fr.denominator)
+    else:
+        limit = 2 ** 1023
+        div = abs(fr.numerator) < limit and fr.denominator < limit
     if t[3] != 'div=%d' % (1 if div else 0):
         return False
     if fr.denominator == 1 or div:
@@ -525,16 +538,41 @@ def translator_selftest(chk: core.Check, exe5: str) -> typing.Tuple[int, typing.
         sto.append(['u', w, rng.choice(['s', 't'])])
         if w >= 2:
             sto.append(['s', w, 's'])
+    flt32_samples: typing.List[fractions.Fraction] = []
+    exact_ints = [0, 1, -1, 2 ** 53, 2 ** 53 + 1, 2 ** 53 + 2, -(2 ** 53) - 1, 2 ** 1023, 2 ** 1024 - 2 ** 970, 2 ** 1024 - 2 ** 970 - 1,
+                  2 ** 1024, 10 ** 400, 3 * 2 ** 1000, 5 * 10 ** 323] + [rng.randint(-2 ** 70, 2 ** 70) for _ in range(60)] + \
+                 [rng.randint(1, 2 ** 53) * 2 ** rng.randint(0, 980) for _ in range(40)]
     bad: typing.List[dict] = []
     total = 0
     m5 = Model5(exe5, proto.TypeDB({'types': []}))
+    rule = m5.run(['rule'])[0].split()
+    FLOAT_RULE[0] = rule[1] if rule[:1] == ['ok'] and len(rule) == 2 else 'limit'
+    mexact = m5.run(['exact %d' % x for x in exact_ints])
+    for x, m in zip(exact_ints, mexact):
+        total += 1
+        if m != 'ok %d' % (1 if py_is_exact_double(x) else 0):
+            bad.append({'function': 'exact64 (model of int(float(x)) == x)', 'argument': str(x), 'translated': m,
+                        'python': py_is_exact_double(x)})
+    # casts: a float32 / float16 constant is the double evaluation cast to float; the double rounding must stay within one binary32 ulp
+    for _ in range(120 if chk.tier == 'quick' else 1500):
+        a, b = rng.randint(1, 2 ** rng.randint(1, 70)), rng.randint(1, 2 ** rng.randint(1, 70))
+        fr = fractions.Fraction(rng.choice([-1, 1]) * a, b)
+        flt32_samples.append(fr)
+    f32 = m5.run(['feval %d %d %s' % (fr.numerator, fr.denominator, py_repr_float(fr)) for fr in flt32_samples])
+    for fr, r in zip(flt32_samples, f32):
+        total += 1
+        fe = kv(r)
+        if not (fe.get('c32', '').isdigit() and abs(ordered(int(fe['c32']), 32) - ordered(int(fe['rn32']), 32)) <= 1
+                and int(fe['rn32']) == round_to_binary(fr, 32) and int(fe['rn64']) == round_to_binary(fr, 64)):
+            bad.append({'function': 'c_eval32 / rne (model of the (float) cast and of rounding)', 'argument': str(fr), 'translated': r,
+                        'python': '%d %d' % (round_to_binary(fr, 32), round_to_binary(fr, 64))})
     mb2b = m5.run(['b2b %d' % n for n in b2b])
     mfit = m5.run(['fit %d' % w for w in fit])
     mlit = m5.run(['lit %s %d %s' % ('u' if u else 's', w, v) for u, w, v in lit])
     mflt = m5.run(['flt %s %s %s' % (n, d, py_repr_float(fractions.Fraction(int(n), int(d)))) for _, n, d in flt])
     for lang in ('c', 'cpp'):
         p = core.run([core.PY, os.path.join(core.VERIF, 'tools', 'harness', 'c05_impl.py')], env=core.repo_env(), timeout=300,
-                     input=json.dumps({'b2b': b2b, 'fit': fit, 'lit': lit, 'flt': flt, 'sto': sto, 'lang': lang}))
+                     input=json.dumps({'b2b': b2b, 'fit': fit, 'lit': lit, 'flt': flt, 'sto': sto, 'exact': [str(x) for x in exact_ints], 'lang': lang}))
         try:
             impl = json.loads(p.stdout[p.stdout.index('{'):])
         except ValueError:
@@ -544,6 +582,14 @@ def translator_selftest(chk: core.Check, exe5: str) -> typing.Tuple[int, typing.
                 total += 1
                 if m != 'ok ' + i:
                     bad.append({'function': name, 'argument': a, 'translated': m, 'python': i})
+        if impl.get('exact') is not None:
+            for x, m, i in zip(exact_ints, mexact, impl['exact']):
+                total += 1
+                if m != 'ok ' + i:
+                    bad.append({'function': '_is_exact_double', 'argument': str(x), 'translated': m, 'python': i})
+        if (impl.get('exact') is not None) != (FLOAT_RULE[0] == 'exact'):
+            bad.append({'function': '_float_division_expr', 'argument': 'rule', 'translated': FLOAT_RULE[0],
+                        'python': 'helper _is_exact_double %s' % ('present' if impl.get('exact') is not None else 'absent')})
         msto = m5.run(['sto %s %s %d %s' % (lang, k, w, cm) for k, w, cm in sto])
         for a, m, i in zip(sto, msto, impl['sto']):
             total += 1
@@ -740,6 +786,10 @@ def main(chk: core.Check, replay: typing.Optional[str] = None) -> int:
 
     if ok5:
         n_st, bad_st = translator_selftest(chk, exe5)
+        chk.notes.append('float division rule regenerated from _float_division_expr: %s -> live obligation: %s' % (
+            FLOAT_RULE[0], 'c05_float64_one_ulp (positive, every rational constant)' if FLOAT_RULE[0] == 'exact'
+            else 'c05_float64_one_ulp_refuted (finding F-FLOAT-OPERAND-ROUNDING) + c05_float64_exact_operands_correct'))
+        chk.coverage['live_float_obligation'] = 'c05_float64_one_ulp' if FLOAT_RULE[0] == 'exact' else 'c05_float64_one_ulp_refuted'
         stats['translator_selftest_compared'] = n_st
         evaluations += n_st
         for b in bad_st[:1]:
